@@ -92,6 +92,17 @@ fn unwrap_scenario(phantom: bool, weak: bool) {
         if c == 2 {
             w().w2[0] = w().w[0].clone();
         }
+        // Weaks released again before the try_unwrap: the side record stays allocated with a weak count
+        // that went back down (to 0 when all of them are released)
+        if c >= 1 {
+            let d = any_below(3);
+            if d >= 1 {
+                drop(w().w[0].take());
+            }
+            if d == 2 {
+                drop(w().w2[0].take());
+            }
+        }
     }
     if phantom {
         let p = any_u16();
